@@ -17,7 +17,7 @@ import (
 
 var specC01Model = Register(&Spec[VerPair]{
 	Prop: "C01", Name: "model",
-	Rule: "pairs of version structs (epoch incl. MaxInt64/MaxUint64; upstream over [A-Za-z0-9.+~:-], revision over [A-Za-z0-9.+~]; token-built, soup and 20..400-digit runs); 2/3 of second operands are one or two local edits of the first (hot alphabet insert/delete/replace, leading zeros, longer digit run, ~/letter/+b1/.0 suffix, revision dropped or 0). Oracle: sign(Compare)==sign(reference comparator written from Policy 5.6.12 with math/big), both operand orders, and version.Slice.Less agrees. Non-trivial: operands differ textually and fall in at least one of the classes late-decision, tilde-vs-end, tilde-vs-letter, letter-vs-punct, digit-runs-differ-in-length, leading-zeros, epoch-tie-upstream-differs, upstream-tie-revision-decides, missing-vs-zero-revision, huge-digit-run; distinct by (a,b).",
+	Rule: "pairs of version structs (epoch incl. MaxInt64/MaxUint64; upstream over [A-Za-z0-9.+~:-], revision over [A-Za-z0-9.+~]; token-built, soup and 20..400-digit runs); 2/3 of second operands are one or two local edits of the first (hot alphabet insert/delete/replace, leading zeros, longer digit run, ~/letter/+b1/.0 suffix, revision dropped or 0). Oracle: sign(Compare)==sign(reference comparator written from Policy 5.6.12 with math/big), both operand orders, also with operands that are parser-made values (of another text) whose exported members were assigned afterwards, and version.Slice.Less agrees. Non-trivial: operands differ textually and fall in at least one of the classes late-decision, tilde-vs-end, tilde-vs-letter, letter-vs-punct, digit-runs-differ-in-length, leading-zeros, epoch-tie-upstream-differs, upstream-tie-revision-decides, missing-vs-zero-revision, huge-digit-run; distinct by (a,b).",
 	Check: func(p VerPair, r *Recorder) error {
 		cl := classifyPair(p)
 		nt := len(cl) > 0 && cl[0] != "identical" && !(len(cl) == 1 && cl[0] == "epoch-differs")
@@ -32,6 +32,12 @@ var specC01Model = Register(&Spec[VerPair]{
 		}
 		if got := sign(version.Compare(b, a)); got != -want {
 			return errf("Compare(%+v, %+v) has sign %d, Policy/dpkg order gives %d", b, a, got, -want)
+		}
+		if got := sign(version.Compare(p.A.verEdited(), b)); got != want {
+			return errf("Compare(%+v, %+v) has sign %d with the first operand a parser-made value whose members were assigned afterwards, Policy/dpkg order gives %d", a, b, got, want)
+		}
+		if got := sign(version.Compare(p.A.verEdited(), p.B.verEdited())); got != want {
+			return errf("Compare(%+v, %+v) has sign %d with both operands parser-made values whose members were assigned afterwards, Policy/dpkg order gives %d", a, b, got, want)
 		}
 		s := version.Slice{a, b}
 		if s.Less(0, 1) != (want < 0) || s.Less(1, 0) != (want > 0) {
